@@ -43,16 +43,42 @@ META = {
  ("C20","A"): dict(needs="async function with invalidate_on; call suspended or dropped after a stale verdict", demo_dest="cachelito-async/tests/", detected_by=["C20 (oracle c20: lookup removed an entry)"]),
  ("C20","B"): dict(needs="async cache with ttl; call suspended while real time passes, then resumed", demo_dest="cachelito-async/tests/", detected_by=["C20 (oracle c20: entry born before the resume; needs the real-sleep events)"]),
 }
+# round 2 (variants C, D = the sub-agent's patchA, patchB in /tmp/mut/<id>r2/out)
+META2 = {
+ ("C04","C"): dict(needs="sync global cache with limit AND max_memory; a cached key stored again (stale refresh) with a value that alone exceeds max_memory, then a new key", demo_dest="tests/", detected_by=["C04 (c04 predicate: a store that does not overflow evicts)"]),
+ ("C04","D"): dict(needs="async cache, policy random, limit, ttl; an expired entry looked up and NOT stored again (Err / cache_if / direct get), then stores at full capacity", demo_dest="cachelito-async/tests/", detected_by=["C04 (c04 predicate: more than limit entries)"]),
+ ("C05","C"): dict(needs="async cache with limit AND max_memory, exactly full; a store of a value that alone exceeds max_memory", demo_dest="cachelito-async/tests/", detected_by=["C05 (c05 predicate: an oversize value displaced an entry)"]),
+ ("C05","D"): dict(needs="a cached value type containing a Box; sizes within size_of::<T>() per box of the limit", demo_dest="tests/", detected_by=["C05 (memest part: estimate != footprint for Box types, AND the engine experiment on GlobalCache<Box<..>>: cached values occupy more than max_memory)"]),
+ ("C06","C"): dict(needs="async cache, policy tlru, ttl; a hit at an age of 1..T-1 whole seconds, then a lookup at age >= T counted from the store", demo_dest="cachelito-async/tests/", detected_by=["C06 (c06 predicate on the lifetime scenarios: entry of age >= ttl served)"]),
+ ("C06","D"): dict(needs="sync global cache with ttl, no max_memory; a store onto a key that is still present (stale refresh), then a lookup younger than ttl counted from the second store but older counted from the first", demo_dest="tests/", detected_by=["C06 (c06 predicate: entry younger than ttl not served)"]),
+ ("C07","C"): dict(needs="thread scope with max_memory, fifo or lru; a value larger than max_memory computed while the cache is non-empty, then overflowing stores", demo_dest="tests/", detected_by=["C07 (c07 predicate)", "C04", "C05"]),
+ ("C07","D"): dict(needs="sync global lru with limit and ttl; an older entry used after a younger one was stored, expired but not purged, then an overflow", demo_dest="tests/", detected_by=["C07 (c07 predicate)"]),
+ ("C08","C"): dict(needs="async tlru without ttl, frequency_weight other than 1, limits; hit counts for which hits^w x rank and hits x rank have different minimisers", demo_dest="cachelito-async/tests/", detected_by=["C08 (c08 predicate)"]),
+ ("C08","D"): dict(needs="sync lfu with limit >= 2; an entry with exactly one hit queued before an entry with no hit", demo_dest="tests/", detected_by=["C08 (c08 predicate)"]),
+ ("C12","C"): dict(needs="async function with tags/events/dependencies whose calls so far stored nothing (Err or cache_if rejection); then an invalidation whose count is checked", demo_dest="cachelito-async/tests/", detected_by=["C12 (oracle tags: count)"]),
+ ("C12","D"): dict(needs="a tag/event/dependency fired once, then ANOTHER cache declaring it used for the first time, then fired again", demo_dest="tests/", detected_by=["C12 (oracle tags: entries survive, count)"]),
+ ("C13","C"): dict(needs="async fifo/lru/arc/tlru with limit, >= 3 entries; partial invalidate_with removing a key that is not one of the two newest; then refill and one eviction", demo_dest="cachelito-async/tests/", detected_by=["C13 (oracle frame / order)"]),
+ ("C13","D"): dict(needs="sync global cache with limit; a predicate that matches EVERY stored key; then new keys", demo_dest="tests/", detected_by=["C13 (oracle frame: stale keys left in the queue)"]),
+ ("C18","C"): dict(needs="async lru; a hit (holding the DashMap shard guard) overlapping a store or invalidation that holds the order queue", demo_dest="cachelito-async/tests/", detected_by=["C18 / C17 (sched part: NORETURN — calls never return on a lock the hooks do not observe; confirmed by a solo rerun)"]),
+ ("C18","D"): dict(needs="sync global lru; a hit whose bookkeeping runs when the order queue is empty (overlapping invalidation, or the window of a concurrent first store)", demo_dest="tests/", detected_by=["C18 (sched part: PANIC in a call)"]),
+}
+
+
 def main():
-    for (pid, v), m in META.items():
-        src = "/tmp/mut/%s/out" % pid
-        if not os.path.exists(src + "/patch%s.diff" % v):
+    todo = [(pid, v, m, "/tmp/mut/%s/out" % pid, v) for (pid, v), m in META.items()]
+    todo += [(pid, v, m, "/tmp/mut/%sr2/out" % pid, {"C": "A", "D": "B"}[v]) for (pid, v), m in META2.items()]
+    for pid, v, m, src, sv in todo:
+        if not os.path.exists(src + "/patch%s.diff" % sv):
             continue
         dst = "/verif/seeded/%s-%s" % (pid, v)
+        if os.path.exists(dst + "/patch.diff") and v in ("A", "B"):
+            continue   # round 1 is saved (some patches were rebased by hand afterwards)
         os.makedirs(dst, exist_ok=True)
-        shutil.copy(src + "/patch%s.diff" % v, dst + "/patch.diff")
-        shutil.copy(src + "/demo%s.rs" % v, dst + "/demo.rs")
-        extra = src + "/demo%s_async.rs" % v
+        shutil.copy(src + "/patch%s.diff" % sv, dst + "/patch.diff")
+        shutil.copy(src + "/demo%s.rs" % sv, dst + "/demo.rs")
+        v_src = v
+        v = v
+        extra = src + "/demo%s_async.rs" % sv
         if os.path.exists(extra):
             shutil.copy(extra, dst + "/demo_async.rs")
         meta = dict(property=pid, variant=v, breaks=pid, needs_to_manifest=m["needs"], demo_goes_to=m["demo_dest"],
